@@ -202,6 +202,43 @@ theorem noroute_status_page_no_upstream {β} (c : Int) (html : String) (r : Req 
     obtain ⟨via, o, hs, _⟩ := serve_forward c html t r
     rw [hs] at hcontra; cases hcontra
 
+theorem run_append (cs : List Int) (c : Int) : RW.run (cs ++ [c]) = (RW.run cs).writeHeader c := by
+  simp [RW.run, List.foldl_append]
+
+theorem foldl_sent (cs : List Int) : ∀ rw : RW, (cs.foldl RW.writeHeader rw).sentHeaders = rw.sentHeaders ++ cs := by
+  induction cs with
+  | nil => intro rw; simp
+  | cons c cs ih => intro rw; simp [List.foldl_cons, ih, RW.writeHeader]
+
+theorem run_sent (cs : List Int) : (RW.run cs).sentHeaders = cs := by
+  simp [RW.run, foldl_sent]
+
+theorem clientView_informational (pre : List Int) (final : Int) (hpre : ∀ c ∈ pre, informational c = true)
+    (hfinal : informational final = false) : clientView (pre ++ [final]) = (pre, final) := by
+  induction pre with
+  | nil => simp [clientView, hfinal]
+  | cons c cs ih =>
+    have hc := hpre c (by simp)
+    have := ih (fun x hx => hpre x (by simp [hx]))
+    simp [clientView, hc, this]
+
+/-- **Status after informational responses.** Whatever informational (1xx) responses the handler announces before
+the final status — `httputil.ReverseProxy` passes the upstream's 103 Early Hints, 102 … through the same
+`WriteHeader` —, the wrapped writer receives exactly that sequence of calls, the recorded code is the final one, and
+(with net/http's reading of such a sequence) the client sees the informational responses as interim responses and
+the upstream's final status as the status. -/
+theorem final_status_after_informational (pre : List Int) (final : Int)
+    (hpre : ∀ c ∈ pre, informational c = true) (hfinal : informational final = false) :
+    (RW.run (pre ++ [final])).sentHeaders = pre ++ [final] ∧ (RW.run (pre ++ [final])).code = final ∧
+    clientView (RW.run (pre ++ [final])).sentHeaders = (pre, final) := by
+  refine ⟨run_sent _, ?_, ?_⟩
+  · rw [run_append]; rfl
+  · rw [run_sent]; exact clientView_informational pre final hpre hfinal
+
+/-- the body bytes go through the wrapper untouched in number and are counted -/
+theorem write_forwards (rw : RW) (n : Nat) : (rw.write n).sentBytes = rw.sentBytes + n ∧ (rw.write n).size = rw.size + n ∧
+    (rw.write n).sentHeaders = rw.sentHeaders := ⟨rfl, rfl, rfl⟩
+
 /-! ## the hypotheses are satisfiable on non-trivial values -/
 
 /-- D11 as repaired: `GET /strip/a%2Fb?x=1`, `strip=/strip`, target query `t=1`, `host=dst` -/
@@ -233,5 +270,9 @@ example : expectedPath (ofStr "/strip") (ofStr "/p") (ofStr "/%73trip/a%2Fb") = 
 example : serve 999 "<html>" none ({ method := "GET", url := {}, host := "h", headers := [], body := () } : Req Unit) = .noRoute 999 "<html>" := by decide +kernel
 example : serve 1000 "<html>" none ({ method := "GET", url := {}, host := "h", headers := [], body := () } : Req Unit) = .noRoute 404 "<html>" := by decide +kernel
 example : serve 99 "" none ({ method := "GET", url := {}, host := "h", headers := [], body := () } : Req Unit) = .noRoute 404 "" := by decide +kernel
+
+/-- 103, 102, 103 and then 404: the final status is what is recorded and what the client sees -/
+example : (RW.run [103, 102, 103, 404]).code = 404 ∧ clientView (RW.run [103, 102, 103, 404]).sentHeaders = ([103, 102, 103], 404) := by
+  decide +kernel
 
 end Fabio.Props.C07
